@@ -4,6 +4,7 @@ package c09
 import (
 	"bytes"
 	"compress/flate"
+	"context"
 	"encoding/base64"
 	"encoding/xml"
 	"errors"
@@ -68,6 +69,10 @@ type Case struct {
 	Plain     string `json:"plain,omitempty"`
 	RespSign  bool   `json:"resp_sign,omitempty"`
 	EncLayout string `json:"enc_layout,omitempty"`
+	// algorithm identifiers written into the (otherwise well-formed) EncryptedAssertion: "" = keep
+	DigestAlg string `json:"digest_alg,omitempty"`
+	KeyAlg    string `json:"key_alg,omitempty"`
+	DataAlg   string `json:"data_alg,omitempty"`
 
 	// bytes: raw input with a framing, through one API
 	Data    []byte `json:"data,omitempty"`
@@ -160,15 +165,15 @@ func newSP() *saml.ServiceProvider {
 
 type discard struct{}
 
-func (discard) Printf(string, ...interface{})  {}
-func (discard) Print(...interface{})           {}
-func (discard) Println(...interface{})         {}
-func (discard) Fatal(...interface{})           {}
-func (discard) Fatalf(string, ...interface{})  {}
-func (discard) Fatalln(...interface{})         {}
-func (discard) Panic(...interface{})           {}
-func (discard) Panicf(string, ...interface{})  {}
-func (discard) Panicln(...interface{})         {}
+func (discard) Printf(string, ...interface{}) {}
+func (discard) Print(...interface{})          {}
+func (discard) Println(...interface{})        {}
+func (discard) Fatal(...interface{})          {}
+func (discard) Fatalf(string, ...interface{}) {}
+func (discard) Fatalln(...interface{})        {}
+func (discard) Panic(...interface{})          {}
+func (discard) Panicf(string, ...interface{}) {}
+func (discard) Panicln(...interface{})        {}
 
 var _ logger.Interface = discard{}
 
@@ -239,6 +244,21 @@ func checkEncPlain(c Case) pbt.Result {
 	if err != nil {
 		return pbt.Result{Err: "harness: " + err.Error()}
 	}
+	setAlg := func(path, v string) {
+		if v == "" {
+			return
+		}
+		for _, e := range ea.FindElements(path) {
+			if v == "-" {
+				e.RemoveAttr("Algorithm")
+			} else {
+				e.CreateAttr("Algorithm", v)
+			}
+		}
+	}
+	setAlg(".//EncryptedKey/EncryptionMethod/DigestMethod", c.DigestAlg)
+	setAlg(".//EncryptedKey/EncryptionMethod", c.KeyAlg)
+	setAlg("./EncryptedData/EncryptionMethod", c.DataAlg)
 	el.AddChild(ea)
 	if c.RespSign {
 		if _, err := forge.Sign(el, r.Sign, false); err != nil {
@@ -250,8 +270,11 @@ func checkEncPlain(c Case) pbt.Result {
 	if c.RespSign {
 		res.Classes = append(res.Classes, "encplain:response-signed")
 	}
+	if c.DigestAlg+c.KeyAlg+c.DataAlg != "" {
+		res.Classes = append(res.Classes, "encplain:algorithm-identifiers-edited")
+	}
 	if msg := contract(o); msg != "" {
-		res.Err = fmt.Sprintf("EncryptedAssertion addressed to the SP whose plaintext is %q (response signed=%v): %s", c.Plain, c.RespSign, msg)
+		res.Err = fmt.Sprintf("EncryptedAssertion addressed to the SP whose plaintext is %q (response signed=%v, digest=%q key-transport=%q data=%q): %s", c.Plain, c.RespSign, c.DigestAlg, c.KeyAlg, c.DataAlg, msg)
 	}
 	return res
 }
@@ -641,26 +664,26 @@ func repoDir() string {
 }
 
 var fixtureAPIs = map[string][]string{
-	"testdata/SP_SamlResponse":                                                     {"response-b64"},
-	"testdata/TestSPCanHandleOneloginResponse_response":                            {"response-b64"},
-	"testdata/TestSPCanHandlePlaintextResponse_response":                           {"response-b64"},
-	"testdata/TestSPCanHandleOktaResponseEncryptedAssertionBothSigned_response":    {"response-b64"},
-	"testdata/TestSPRealWorldKeyInfoHasRSAPublicKeyNotX509Cert_response":           {"response-b64"},
-	"testdata/TestSPMultipleAssertions":                                            {"response"},
-	"testdata/TestXswPermutationOneIsRejected_response":                            {"response"},
-	"testdata/TestXswPermutationSevenIsRejected_response":                          {"response"},
-	"testdata/TestParseXMLArtifactResponse_response":                               {"artifact"},
-	"testdata/TestIDPMakeResponse_response.xml":                                    {"response", "logout-form"},
-	"testdata/idp_authn_request.xml":                                               {"authn-post", "authn-get"},
-	"testdata/TestIDPCanHandleRequestWithExistingSession_decodedRequest":           {"authn-post", "authn-get"},
-	"testdata/TestSPCanProduceRedirectLogoutResponse_decodedResponse":              {"logout-form", "logout-redirect", "logout-request"},
-	"testdata/SP_IDPMetadata":                                                      {"metadata", "unmarshal-entity"},
-	"testdata/TestCanParseMetadata_metadata.xml":                                   {"metadata", "unmarshal-entity", "put-service"},
-	"testdata/TestMetadataValidatesUrlSchemeForProtocolBinding_metadata.xml":       {"metadata", "unmarshal-entity", "put-service"},
-	"samlsp/testdata/testshib_metadata.xml":                                        {"metadata", "unmarshal-entities"},
-	"samlsp/testdata/idp_metadata.xml":                                             {"metadata", "unmarshal-entity"},
-	"samlidp/testdata/sp_metadata.xml":                                             {"put-service", "unmarshal-entity", "metadata"},
-	"xmlenc/testdata/plaintext.xml":                                                {"response"},
+	"testdata/SP_SamlResponse":                                                  {"response-b64"},
+	"testdata/TestSPCanHandleOneloginResponse_response":                         {"response-b64"},
+	"testdata/TestSPCanHandlePlaintextResponse_response":                        {"response-b64"},
+	"testdata/TestSPCanHandleOktaResponseEncryptedAssertionBothSigned_response": {"response-b64"},
+	"testdata/TestSPRealWorldKeyInfoHasRSAPublicKeyNotX509Cert_response":        {"response-b64"},
+	"testdata/TestSPMultipleAssertions":                                         {"response"},
+	"testdata/TestXswPermutationOneIsRejected_response":                         {"response"},
+	"testdata/TestXswPermutationSevenIsRejected_response":                       {"response"},
+	"testdata/TestParseXMLArtifactResponse_response":                            {"artifact"},
+	"testdata/TestIDPMakeResponse_response.xml":                                 {"response", "logout-form"},
+	"testdata/idp_authn_request.xml":                                            {"authn-post", "authn-get"},
+	"testdata/TestIDPCanHandleRequestWithExistingSession_decodedRequest":        {"authn-post", "authn-get"},
+	"testdata/TestSPCanProduceRedirectLogoutResponse_decodedResponse":           {"logout-form", "logout-redirect", "logout-request"},
+	"testdata/SP_IDPMetadata":                                                   {"metadata", "unmarshal-entity"},
+	"testdata/TestCanParseMetadata_metadata.xml":                                {"metadata", "unmarshal-entity", "put-service"},
+	"testdata/TestMetadataValidatesUrlSchemeForProtocolBinding_metadata.xml":    {"metadata", "unmarshal-entity", "put-service"},
+	"samlsp/testdata/testshib_metadata.xml":                                     {"metadata", "unmarshal-entities"},
+	"samlsp/testdata/idp_metadata.xml":                                          {"metadata", "unmarshal-entity"},
+	"samlidp/testdata/sp_metadata.xml":                                          {"put-service", "unmarshal-entity", "metadata"},
+	"xmlenc/testdata/plaintext.xml":                                             {"response"},
 }
 
 var fixtureNames = func() []string {
@@ -851,6 +874,38 @@ func checkArtifact(c Case) pbt.Result {
 		ok200 := func(b []byte) (*http.Response, error) {
 			return &http.Response{StatusCode: 200, Status: "200 OK", Header: http.Header{}, Body: io.NopCloser(bytes.NewReader(b))}, nil
 		}
+		if fault == "context-cancelled" {
+			// A resolver that stalls can only be abandoned if the outgoing request is bound to the
+			// incoming request's context.  Decided as a state predicate, without waiting: the
+			// transport cancels the incoming context and looks at the outgoing request's context.
+			ctx, cancel := context.WithCancel(context.Background())
+			bound, entered := false, false
+			sp.HTTPClient = &http.Client{Transport: spkit.RoundTripFunc(func(r *http.Request) (*http.Response, error) {
+				entered = true
+				cancel()
+				bound = r.Context().Err() != nil
+				return nil, errors.New("resolver stalled; request abandoned")
+			})}
+			form := url.Values{"SAMLart": {"AAQAAMFbLinlXaCM+FIxiDwGOLAy2T71gbpO7ZhNzAgEANlB90ECfpNEVLg="}}
+			req, _ := http.NewRequestWithContext(ctx, "POST", spkit.SPACS, strings.NewReader(form.Encode()))
+			req.Header.Set("Content-Type", "application/x-www-form-urlencoded")
+			_ = req.ParseForm()
+			r := guarded(func() (string, error) { _, err := sp.ParseResponse(req, []string{"id-req"}); return "", err })
+			cancel()
+			if r.panic != "" {
+				res.Err = "panic: " + r.panic
+				return res
+			}
+			if entered && !bound {
+				res.Err = "the artifact resolution request is not bound to the incoming request's context: with a resolver that accepts the connection and stalls, ParseResponse would hang even after the request is cancelled"
+				return res
+			}
+			if r.err == nil {
+				res.Err = "an abandoned artifact resolution yielded no error"
+				return res
+			}
+			continue
+		}
 		o := spkit.ParseArtifactHTTP(sp, []string{"id-req"}, spkit.SPACS, func(body []byte) (*http.Response, error) {
 			issued := ""
 			d := etree.NewDocument()
@@ -970,8 +1025,14 @@ var degeneratePlain = []string{
 	`<samlp:Response xmlns:samlp="urn:oasis:names:tc:SAML:2.0:protocol"/>`,
 }
 
+// algIDs: registered, W3C-defined-but-unregistered, unknown, empty and removed ("-") algorithm identifiers.
+var algIDs = []string{"", "", "-", " ", "urn:unknown", "http://www.w3.org/2000/09/xmldsig#sha1", "http://www.w3.org/2000/09/xmldsig#sha256", "http://www.w3.org/2001/04/xmlenc#sha256",
+	"http://www.w3.org/2001/04/xmldsig-more#sha384", "http://www.w3.org/2001/04/xmlenc#sha512", "http://www.w3.org/2001/04/xmlenc#ripemd160", "http://www.w3.org/2001/04/xmldsig-more#md5",
+	"http://www.w3.org/2001/04/xmlenc#rsa-oaep-mgf1p", "http://www.w3.org/2009/xmlenc11#rsa-oaep", "http://www.w3.org/2001/04/xmlenc#rsa-1_5",
+	"http://www.w3.org/2001/04/xmlenc#aes128-cbc", "http://www.w3.org/2001/04/xmlenc#aes256-cbc", "http://www.w3.org/2009/xmlenc11#aes128-gcm", "http://www.w3.org/2001/04/xmlenc#tripledes-cbc", "http://www.w3.org/2001/04/xmlenc#kw-aes128"}
+
 var apis = []string{"response", "artifact", "logout-form", "logout-redirect", "logout-request", "authn-get", "authn-post", "metadata", "unmarshal-entity", "unmarshal-entities", "put-service"}
-var faults = []string{"good", "dial-error", "status-500", "status-302", "status-204", "truncated-body", "half-xml", "soap-fault", "wrong-envelope", "empty-body", "empty-soap-body", "no-soap-body", "two-bodies", "garbage", "html", "comment-only", "artifact-without-response", "artifact-without-status", "oversized", "nil-body-ok"}
+var faults = []string{"context-cancelled", "good", "dial-error", "status-500", "status-302", "status-204", "truncated-body", "half-xml", "soap-fault", "wrong-envelope", "empty-body", "empty-soap-body", "no-soap-body", "two-bodies", "garbage", "html", "comment-only", "artifact-without-response", "artifact-without-status", "oversized", "nil-body-ok"}
 
 var nParts = struct{ resp, req, spmeta, idpmeta int }{
 	len(partsOf(maximalResponse())), len(partsOf(maximalAuthnRequest("a", "b", "c"))), len(partsOf(maximalSPMetadata("a", "b"))), len(partsOf(maximalIDPMetadata())),
@@ -1067,7 +1128,13 @@ func gen(t *rapid.T) Case {
 		if rapid.IntRange(0, 2).Draw(t, "randplain") == 0 {
 			plain = string(genBytes(t))
 		}
-		return Case{Kind: "encplain", Plain: plain, RespSign: rapid.Bool().Draw(t, "respsign"), EncLayout: rapid.SampledFrom([]string{"", "sibling"}).Draw(t, "enclayout")}
+		c := Case{Kind: "encplain", Plain: plain, RespSign: rapid.Bool().Draw(t, "respsign"), EncLayout: rapid.SampledFrom([]string{"", "sibling"}).Draw(t, "enclayout")}
+		if rapid.Bool().Draw(t, "algs") {
+			c.DigestAlg = rapid.SampledFrom(algIDs).Draw(t, "digestalg")
+			c.KeyAlg = rapid.SampledFrom(algIDs).Draw(t, "keyalg")
+			c.DataAlg = rapid.SampledFrom(algIDs).Draw(t, "dataalg")
+		}
+		return c
 	case 5, 6, 7:
 		c := Case{Kind: "bytes", Data: genBytes(t), API: rapid.SampledFrom(apis).Draw(t, "api")}
 		c.Framing = rapid.SampledFrom([]string{"raw", "b64", "b64", "deflate-b64", "deflate-b64", "bad-b64", "trunc-deflate", "stored"}).Draw(t, "framing")
@@ -1207,6 +1274,15 @@ func enumDegenerate(_ string, emit func(Case)) {
 			for _, fr := range []string{"raw", "b64", "deflate-b64"} {
 				emit(Case{Kind: "bytes", Data: []byte(p), API: api, Framing: fr})
 			}
+		}
+	}
+	valid := `<saml:Assertion xmlns:saml="urn:oasis:names:tc:SAML:2.0:assertion" ID="x" Version="2.0"><saml:Issuer/></saml:Assertion>`
+	for _, id := range algIDs[2:] {
+		for _, l := range []string{"", "sibling"} {
+			emit(Case{Kind: "encplain", Plain: valid, EncLayout: l, DigestAlg: id})
+			emit(Case{Kind: "encplain", Plain: valid, EncLayout: l, KeyAlg: id})
+			emit(Case{Kind: "encplain", Plain: valid, EncLayout: l, DataAlg: id})
+			emit(Case{Kind: "encplain", Plain: valid, EncLayout: l, KeyAlg: "http://www.w3.org/2009/xmlenc11#rsa-oaep", DigestAlg: id})
 		}
 	}
 	for _, f := range faults {
